@@ -24,7 +24,7 @@ Definition DT (y m d h mi s u : N) (z : option Z) : dtime := mkdt y m d h mi s u
 (* the same instant and the same offset; Z and +00:00 both decode to offset 0 *)
 Definition midnight (y m d : N) : dtime := mkdt y m d 0 0 0 0 None.
 
-Definition whole_minute_tz (o : option Z) : bool := match o with None => true | Some z => (z mod 60 =? 0)%Z end.
+Definition whole_minute_tz (o : option Z) : bool := match o with None => true | Some z => (z mod 60000000 =? 0)%Z end.
 
 Inductive ccase :=
 | CDur (us : Z) (enc : str) (dec : option Z)          (* Duration.encode(timedelta(microseconds=us)) ; Duration.decode of that *)
@@ -44,7 +44,6 @@ Inductive ccase :=
 
 (* codes:  1 round trip / decoded value wrong   2 encoded string outside the lexical form   3 encoder differs from the model
            4 decoder differs from the model (accepts what it must reject, rejects what it must read, or another value)
-           9 only leniency of datetime.fromisoformat outside xsd:dateTime (not an alarm).
    The property's own predicates (1, 2) are evaluated first, on the implementation's outputs alone; then the comparison with the model (3, 4). *)
 Definition chk18 (css : list (str * (Z * Z * Z))) (c : ccase) : nat :=
   match c with
@@ -87,7 +86,7 @@ Definition chk18 (css : list (str * (Z * Z * Z))) (c : ccase) : nat :=
       match datetime_decode t, out with
       | Some v, Some w => if dtime_eqb v w then 0 else 1
       | Some _, None => 4
-      | None, Some _ => 9
+      | None, Some _ => 2      (* a string outside the ODF date / dateTime forms is given a value *)
       | None, None => 0
       end
   | CRgb r g b enc dec =>
